@@ -8,6 +8,7 @@ import (
 	"strings"
 
 	bolt "go.etcd.io/bbolt"
+	fl "go.etcd.io/bbolt/internal/freelist"
 	"go.etcd.io/bbolt/zverif/apix"
 	"go.etcd.io/bbolt/zverif/hx"
 	"go.etcd.io/bbolt/zverif/mc"
@@ -125,6 +126,9 @@ func openEnv(s *vsync.Session, ps int, flt string, fill int, opt func(o *bolt.Op
 }
 
 func (e *cenv) close() {
+	if len(e.fails) == 0 {
+		e.finalAccounting()
+	}
 	apix.SetTap(nil)
 	if e.db != nil {
 		_ = e.db.Close()
@@ -325,6 +329,61 @@ func (e *cenv) finalState() map[string]int {
 		e.failf("final View: %v", err)
 	}
 	return out
+}
+
+// finalAccounting is the end-state oracle of every concurrent driver: once all threads have finished, the file
+// must account for every page exactly once (independent decoder), the in-memory free list must be exactly the
+// decoder's set of free pages, and Tx.Check must be silent. A schedule-dependent corruption of allocator state
+// that nothing has read yet shows up here.
+func (e *cenv) finalAccounting() {
+	if e.db == nil {
+		return
+	}
+	data, err := os.ReadFile(e.path)
+	if err != nil {
+		e.failf("final accounting: %v", err)
+		return
+	}
+	ps := bolt.VerifPageSize(e.db)
+	_, st, err := apix.DecodeBytes(data, ps)
+	if err != nil {
+		e.failf("final accounting: %v", err)
+		return
+	}
+	if len(st.Problems) > 0 {
+		e.failf("final page accounting: %s", st.Problems[0])
+		return
+	}
+	if f := bolt.VerifFreelist(e.db); f != nil {
+		d := fl.VerifDump(f)
+		mem := map[uint64]bool{}
+		for _, id := range d.Free {
+			if mem[uint64(id)] {
+				e.failf("final accounting: page %d twice in the in-memory free list", id)
+			}
+			mem[uint64(id)] = true
+		}
+		for _, l := range d.Pending {
+			for _, p := range l {
+				if mem[uint64(p.ID)] {
+					e.failf("final accounting: page %d both free and pending in memory", p.ID)
+				}
+				mem[uint64(p.ID)] = true
+			}
+		}
+		for id, u := range st.Use {
+			if (u == "free") != mem[uint64(id)] {
+				e.failf("final accounting: page %d is %q in the file but in the in-memory free list: %v", id, u, mem[uint64(id)])
+				break
+			}
+		}
+	}
+	_ = e.db.View(func(tx *bolt.Tx) error {
+		for er := range vsync.RecvFrom(tx.Check()).Range() {
+			e.failf("final Tx.Check: %v", er)
+		}
+		return nil
+	})
 }
 
 func (e *cenv) obs() string {
